@@ -70,8 +70,28 @@ func drawTrial(t *rt.Tape, r *simrand.DRBG, exhaustiveIdx int) *trial {
 		}
 		return 256
 	}
-	mode := t.Choose(rt.SFault, 8)
+	mode := t.Choose(rt.SFault, 10)
 	switch mode {
+	case 8, 9: // structured pair: the same column at rows r and r+d, or the same row in two columns
+		m := t.Choose(rt.SFault, payloadChunks)
+		rows := rowsOf(m)
+		c := t.Choose(rt.SFault, 128)
+		r := t.Choose(rt.SFault, rows)
+		if mode == 8 {
+			d := []int{1, 8, 64, 128, 256, 512, 1024}[t.Choose(rt.SFault, 7)]
+			m2, r2 := m, r+d
+			for m2 < payloadChunks && r2 >= rowsOf(m2) { // the partner row may lie in a later chunk
+				r2 -= chunkRows
+				m2++
+			}
+			if m2 < payloadChunks && r2 >= 0 && r2 < rowsOf(m2) {
+				tr.Flips = []flip{{Msg: m, Col: c, Row: r}, {Msg: m2, Col: c, Row: r2}}
+			} else {
+				tr.Flips = []flip{{Msg: m, Col: c, Row: r}}
+			}
+		} else {
+			tr.Flips = []flip{{Msg: m, Col: c, Row: r}, {Msg: m, Col: (c + 1 + t.Choose(rt.SFault, 127)) % 128, Row: r}}
+		}
 	case 0: // honest
 		tr.desc = "honest"
 	case 1, 2, 3: // single flip in the payload batch
